@@ -31,6 +31,7 @@ type hprog struct {
 	DeclareLen bool
 	Hijack     bool // take the connection over (Upgrade), answer 101 and close
 	Interim    int  // send this interim (1xx) response first
+	AbortAfter int  // > 0: break the response off (http.ErrAbortHandler) after this many parts
 }
 
 type progServer struct {
@@ -90,7 +91,10 @@ func (ps *progServer) base(w http.ResponseWriter, r *http.Request) {
 	if p.FlushFirst && fl != nil {
 		fl.Flush()
 	}
-	for _, x := range p.Parts {
+	for i, x := range p.Parts {
+		if p.AbortAfter > 0 && i == p.AbortAfter {
+			panic(http.ErrAbortHandler)
+		}
 		if _, err := w.Write(x); err != nil {
 			return
 		}
